@@ -30,6 +30,8 @@ pub enum AdvReq {
     Add { name: Option<u8>, size: usize, align: usize, uninit: bool },
     /// Remove one of the current data.
     RemoveCurrent { sel: u16 },
+    /// Remove up to `count` of the current data, walking the current list backwards from the selected one.
+    RemoveBurst { sel: u16, count: u8 },
     /// Remove any id issued so far (stale, pending, twice removed, ...).
     RemoveIssued { sel: u16 },
     /// Remove an id that was never issued.
@@ -51,6 +53,7 @@ fn adv_req() -> impl Strategy<Value = AdvReq> {
         10 => (prop::option::weighted(0.7, 0u8..8), shape_strategy(), any::<bool>())
             .prop_map(|(name, (size, align), uninit)| AdvReq::Add { name, size, align, uninit }),
         4 => any::<u16>().prop_map(|sel| AdvReq::RemoveCurrent { sel }),
+        1 => (any::<u16>(), 2u8..70).prop_map(|(sel, count)| AdvReq::RemoveBurst { sel, count }),
         3 => any::<u16>().prop_map(|sel| AdvReq::RemoveIssued { sel }),
         1 => (0u8..4).prop_map(|beyond| AdvReq::RemoveUnknown { beyond }),
         5 => strat_strategy().prop_map(|strat| AdvReq::Close { strat }),
@@ -406,6 +409,28 @@ pub fn check_c12(h: &AdvHistory) -> Result<CaseInfo, Failure> {
                     }
                     (Err(e), true) => {
                         return Err(fail("valid-add-rejected", step, req, format!("valid add of {:?} rejected: {}", name, e)));
+                    }
+                }
+            }
+            AdvReq::RemoveBurst { sel, count } => {
+                let cur: Vec<usize> = model.current().into_iter().collect();
+                if cur.is_empty() {
+                    continue;
+                }
+                let start = pick(*sel, cur.len());
+                for k in 0..(*count as usize).min(cur.len()) {
+                    let id = cur[(start + cur.len() - k) % cur.len()];
+                    match guarded!(step, req, sut.remove(DatumId::from(id))) {
+                        Ok(()) => {
+                            if let Some(pos) = model.pending_add.iter().position(|&x| x == id) {
+                                model.pending_add.remove(pos);
+                            } else {
+                                model.pending_remove.push(id);
+                            }
+                        }
+                        Err(e) => {
+                            return Err(fail("valid-remove-rejected", step, req, format!("valid removal of datum {} rejected: {}", id, e)));
+                        }
                     }
                 }
             }
